@@ -263,6 +263,82 @@ theorem hms_string_roundtrip (k : Int) :
   simp only [numVal_int, numVal_centi, Except.map]
   rw [hj]
 
+/-! ### white space, separators and the sign column
+
+`dec2dec` documents the input as `[+- ]dd:mm[:ss.s]` with colons replaceable by white space, so a
+right-justified table cell, a tab, or blanks for the colons must parse to the same number, and the
+sign must come from the first *field* (not from the raw string, and not from the numeric value of the
+degrees field: `float('-00')` is `-0.0`, which is not `< 0`). -/
+
+theorem dec2dec_ofList {α : Type} [R α] (pos neg : α → α → α → α) (l : List Char) :
+    dec2dec pos neg (String.ofList l) = dec2decL pos neg l := by
+  unfold dec2dec; rw [String.toList_ofList]
+
+theorem blank_isSep (l : List Char) (h : ∀ c ∈ l, c.isWhitespace = true) : ∀ c ∈ l, isSep c = true := by
+  intro c hc; simp [isSep, h c hc]
+
+/-- **parsing is invariant under leading/trailing ASCII white space and under blanks for colons**:
+    any padding of the printed Dec string, with either separator, parses to `±n/360000` -/
+theorem dms_string_roundtrip_padded (sgn : Bool) (n : Nat) (h : n < 100 * 360000) (pre post : List Char)
+    (hpre : ∀ c ∈ pre, c.isWhitespace = true) (hpost : ∀ c ∈ post, c.isWhitespace = true) :
+    dec2dec dec2decPosHand dec2decNeg
+        (String.ofList (pre ++ (dmsChars sgn (dmsD n) (dmsM n) (dmsCs n) ++ post)))
+      = .ok (if sgn then -((n : ℝ) / 360000) else (n : ℝ) / 360000) ∧
+    dec2dec dec2decPosHand dec2decNeg
+        (String.ofList (pre ++ ((dmsChars sgn (dmsD n) (dmsM n) (dmsCs n)).map colonToSpace ++ post)))
+      = .ok (if sgn then -((n : ℝ) / 360000) else (n : ℝ) / 360000) := by
+  have base := dms_string_roundtrip sgn n h
+  unfold dmsString at base
+  rw [dec2dec_ofList] at base
+  refine ⟨?_, ?_⟩
+  · rw [dec2dec_ofList, dec2decL_pad _ _ _ _ _ (blank_isSep pre hpre) (blank_isSep post hpost)]
+    exact base
+  · rw [dec2dec_ofList, dec2decL_pad _ _ _ _ _ (blank_isSep pre hpre) (blank_isSep post hpost),
+      dec2decL_colonToSpace]
+    exact base
+
+/-- **the sign survives a zero degrees field**: for a negative angle with |x| < 1° the printed string
+    is `-00:MM:SS.SS`, and however it is padded it parses to the negative number `−n/360000` -/
+theorem dms_negative_below_one_degree (n : Nat) (h0 : 0 < n) (h1 : n < 360000) (pre post : List Char)
+    (hpre : ∀ c ∈ pre, c.isWhitespace = true) (hpost : ∀ c ∈ post, c.isWhitespace = true) :
+    dmsD n = 0 ∧
+    dec2dec dec2decPosHand dec2decNeg
+        (String.ofList (pre ++ (dmsChars true (dmsD n) (dmsM n) (dmsCs n) ++ post)))
+      = .ok (-((n : ℝ) / 360000)) ∧ -((n : ℝ) / 360000) < 0 := by
+  refine ⟨by rw [dmsD_eq]; unfold fldHi; omega, ?_, ?_⟩
+  · have := (dms_string_roundtrip_padded true n (by omega) pre post hpre hpost).1
+    simpa using this
+  · have : (0 : ℝ) < n := by exact_mod_cast h0
+    have : (0 : ℝ) < (n : ℝ) / 360000 := by positivity
+    linarith
+
+/-- the RA string, padded and with either separator -/
+theorem hms_string_roundtrip_padded (k : Int) (pre post : List Char)
+    (hpre : ∀ c ∈ pre, c.isWhitespace = true) (hpost : ∀ c ∈ post, c.isWhitespace = true) :
+    ∃ j : Int,
+      (dec2dec dec2decPosHand dec2decNeg (String.ofList
+        (pre ++ (hmsChars (hmsH (hmsWrap k)) (hmsM (hmsWrap k)) (hmsCs (hmsWrap k)) ++ post)))).map ra2decScale
+        = .ok ((k : ℝ) / 24000 - 360 * j) ∧
+      (dec2dec dec2decPosHand dec2decNeg (String.ofList
+        (pre ++ ((hmsChars (hmsH (hmsWrap k)) (hmsM (hmsWrap k)) (hmsCs (hmsWrap k))).map colonToSpace ++ post)))).map
+          ra2decScale = .ok ((k : ℝ) / 24000 - 360 * j) := by
+  obtain ⟨j, base⟩ := hms_string_roundtrip k
+  unfold hmsString at base
+  rw [dec2dec_ofList] at base
+  refine ⟨j, ?_, ?_⟩
+  · rw [dec2dec_ofList, dec2decL_pad _ _ _ _ _ (blank_isSep pre hpre) (blank_isSep post hpost)]
+    exact base
+  · rw [dec2dec_ofList, dec2decL_pad _ _ _ _ _ (blank_isSep pre hpre) (blank_isSep post hpost),
+      dec2decL_colonToSpace]
+    exact base
+
+/-- whatever the fields are: if the first field starts with '-', a successful parse used the
+    subtracting branch (so `-00 07 24.42`, `-0:30` are negative) -/
+theorem sign_from_first_field (s : String) (b t1 : List Char) (rest : List (List Char))
+    (ht : tokensL s.toList = ('-' :: b) :: t1 :: rest) (v : ℝ)
+    (hv : dec2dec dec2decPosHand dec2decNeg s = .ok v) : ∃ x y z, v = dec2decNeg x y z :=
+  dec2decL_minus _ _ _ b t1 rest ht v hv
+
 /-! ### Non-vacuity, and the negation witnesses for the pinned Float formatters -/
 
 example : dmsD 3960000 = 11 ∧ dmsM 3960000 = 0 ∧ dmsCs 3960000 = 0 := by decide
@@ -272,6 +348,8 @@ example : dmsString false (dmsD 3960000) (dmsM 3960000) (dmsCs 3960000) = "+11:0
 example : dmsString true (dmsD 3959999) (dmsM 3959999) (dmsCs 3959999) = "-10:59:59.99" := by decide +kernel
 example : hmsString (hmsH (hmsWrap (-1))) (hmsM (hmsWrap (-1))) (hmsCs (hmsWrap (-1))) = "23:59:59.99" := by
   decide +kernel
+example : tokensL "  -00:07:24.42".toList = ["-00".toList, "07".toList, "24.42".toList] := by decide +kernel
+example : tokensL "\t-0 30 ".toList = ["-0".toList, "30".toList] := by decide +kernel
 example : tokensL "-00 01 23.456".toList = ["-00".toList, "01".toList, "23.456".toList] := by decide +kernel
 
 /-- the pinned `dec2dms` prints a seconds field of 60.00: `10.9999999 ↦ "+10:59:60.00"` -/
